@@ -173,4 +173,139 @@ theorem b2a1_transpose_a2b1 (osh ish osh' ish' : Int → Int) (batch B S N : Int
     refine ⟨b, n, x, h1, h2, h3, h4, h5, h6, by simpa [hlen] using h7, ?_⟩ <;>
     simp only [Prod.mk.injEq] at h8 ⊢ <;> tauto
 
+/-! ### 2-D and 3-D block loop nests -/
+
+/-- `_array_to_blocks2`: block `(ny, nx, by, bx)` reads array position `(ny·Sy + by, nx·Sx + bx)`;
+    `y` indices pair with `Sy/By/Ny`, `x` indices with `Sx/Bx/Nx`, output index order
+    `[b, ny, nx, by, bx]`. -/
+theorem a2b2_mem (osh ish : Int → Int) (batch Bx By Sx Sy Nx Ny : Int) (u : Upd Rat) :
+    u ∈ Gen.a2b2 osh ish batch Bx By Sx Sy Nx Ny ↔
+      ∃ b ny nx y x, 0 ≤ b ∧ b < batch ∧ 0 ≤ ny ∧ ny < Ny ∧ 0 ≤ nx ∧ nx < Nx ∧
+        0 ≤ y ∧ y < By ∧ 0 ≤ x ∧ x < Bx ∧ nx * Sx + x < ish (-1) ∧ ny * Sy + y < ish (-2) ∧
+        u = ([b, ny, nx, y, x], [b, ny * Sy + y, nx * Sx + x], 1) := by
+  unfold Gen.a2b2
+  simp only [List.mem_flatMap, mem_pyRange0']
+  constructor
+  · rintro ⟨b, hb, ny, hny, nx, hnx, y, hy, x, hx, h⟩
+    split_ifs at h with hg
+    · simp at h
+      exact ⟨b, ny, nx, y, x, hb.1, hb.2, hny.1, hny.2, hnx.1, hnx.2, hy.1, hy.2, hx.1, hx.2, hg.1, hg.2, h⟩
+    · simp at h
+  · rintro ⟨b, ny, nx, y, x, hb0, hb1, hny0, hny1, hnx0, hnx1, hy0, hy1, hx0, hx1, hgx, hgy, rfl⟩
+    refine ⟨b, ⟨hb0, hb1⟩, ny, ⟨hny0, hny1⟩, nx, ⟨hnx0, hnx1⟩, y, ⟨hy0, hy1⟩, x, ⟨hx0, hx1⟩, ?_⟩
+    simp [hgx, hgy]
+
+/-- `_blocks_to_array2` is the transpose of `_array_to_blocks2`. -/
+theorem b2a2_mem (osh ish : Int → Int) (batch Bx By Sx Sy Nx Ny : Int) (hSx : 0 < Sx) (hSy : 0 < Sy)
+    (u : Upd Rat) :
+    u ∈ Gen.b2a2 osh ish batch Bx By Sx Sy Nx Ny ↔
+      ∃ b ny nx y x, 0 ≤ b ∧ b < batch ∧ 0 ≤ ny ∧ ny < Ny ∧ 0 ≤ nx ∧ nx < Nx ∧
+        0 ≤ y ∧ y < By ∧ 0 ≤ x ∧ x < Bx ∧ nx * Sx + x < osh (-1) ∧ ny * Sy + y < osh (-2) ∧
+        u = ([b, ny * Sy + y, nx * Sx + x], [b, ny, nx, y, x], 1) := by
+  unfold Gen.b2a2
+  simp only [List.mem_flatMap, mem_pyRange0']
+  constructor
+  · rintro ⟨b, hb, iy, hiy, ix, hix, y, hy, h⟩
+    split_ifs at h with hgy
+    · simp only [List.mem_flatMap] at h
+      obtain ⟨x, hx, h⟩ := h
+      split_ifs at h with hgx
+      · obtain ⟨y0, y2, y4, y5, y6⟩ := (scatter_iff Sy By Ny iy y hSy).mp ⟨hy, hgy.1, hgy.2⟩
+        obtain ⟨x0, x2, x4, x5, x6⟩ := (scatter_iff Sx Bx Nx ix x hSx).mp ⟨hx, hgx.1, hgx.2⟩
+        simp at h
+        refine ⟨b, pyDiv (iy - y) Sy, pyDiv (ix - x) Sx, y, x, hb.1, hb.2, y4, y5, x4, x5, y0, y2, x0, x2,
+          by omega, by omega, ?_⟩
+        rw [h, ← y6, ← x6]
+      · simp at h
+    · simp at h
+  · rintro ⟨b, ny, nx, y, x, hb0, hb1, hny0, hny1, hnx0, hnx1, hy0, hy1, hx0, hx1, hgx, hgy, rfl⟩
+    have hqy : pyDiv (ny * Sy + y - y) Sy = ny := by
+      rw [pyDiv_of_pos _ hSy]; simp [Int.mul_ediv_cancel _ (ne_of_gt hSy)]
+    have hqx : pyDiv (nx * Sx + x - x) Sx = nx := by
+      rw [pyDiv_of_pos _ hSx]; simp [Int.mul_ediv_cancel _ (ne_of_gt hSx)]
+    have hy := (scatter_iff Sy By Ny (ny * Sy + y) y hSy).mpr
+      ⟨hy0, hy1, by rw [hqy]; exact hny0, by rw [hqy]; exact hny1, by rw [hqy]⟩
+    have hx := (scatter_iff Sx Bx Nx (nx * Sx + x) x hSx).mpr
+      ⟨hx0, hx1, by rw [hqx]; exact hnx0, by rw [hqx]; exact hnx1, by rw [hqx]⟩
+    refine ⟨b, ⟨hb0, hb1⟩, ny * Sy + y, ⟨by positivity, hgy⟩, nx * Sx + x, ⟨by positivity, hgx⟩, y, hy.1, ?_⟩
+    rw [if_pos ⟨by rw [hqy]; exact hny0, by rw [hqy]; exact hny1⟩]
+    simp only [List.mem_flatMap]
+    refine ⟨x, hx.1, ?_⟩
+    rw [if_pos ⟨by rw [hqx]; exact hnx0, by rw [hqx]; exact hnx1⟩]
+    have hqy' : pyDiv (ny * Sy) Sy = ny := by
+      rw [pyDiv_of_pos _ hSy]; exact Int.mul_ediv_cancel _ (ne_of_gt hSy)
+    have hqx' : pyDiv (nx * Sx) Sx = nx := by
+      rw [pyDiv_of_pos _ hSx]; exact Int.mul_ediv_cancel _ (ne_of_gt hSx)
+    simp [hqy', hqx']
+
+theorem pyDiv_mul_add_sub (n S x : Int) (hS : 0 < S) : pyDiv (n * S + x - x) S = n := by
+  rw [pyDiv_of_pos _ hS]; simp [Int.mul_ediv_cancel _ (ne_of_gt hS)]
+
+/-- `_array_to_blocks3`: block `(nz,ny,nx,bz,by,bx)` reads `(nz·Sz+bz, ny·Sy+by, nx·Sx+bx)`. -/
+theorem a2b3_mem (osh ish : Int → Int) (batch Bx By Bz Sx Sy Sz Nx Ny Nz : Int) (u : Upd Rat) :
+    u ∈ Gen.a2b3 osh ish batch Bx By Bz Sx Sy Sz Nx Ny Nz ↔
+      ∃ b nz ny nx z y x, 0 ≤ b ∧ b < batch ∧ 0 ≤ nz ∧ nz < Nz ∧ 0 ≤ ny ∧ ny < Ny ∧ 0 ≤ nx ∧ nx < Nx ∧
+        0 ≤ z ∧ z < Bz ∧ 0 ≤ y ∧ y < By ∧ 0 ≤ x ∧ x < Bx ∧
+        nx * Sx + x < ish (-1) ∧ ny * Sy + y < ish (-2) ∧ nz * Sz + z < ish (-3) ∧
+        u = ([b, nz, ny, nx, z, y, x], [b, nz * Sz + z, ny * Sy + y, nx * Sx + x], 1) := by
+  unfold Gen.a2b3
+  simp only [List.mem_flatMap, mem_pyRange0']
+  constructor
+  · rintro ⟨b, hb, nz, hnz, ny, hny, nx, hnx, z, hz, y, hy, x, hx, h⟩
+    split_ifs at h with hg
+    · simp at h
+      exact ⟨b, nz, ny, nx, z, y, x, hb.1, hb.2, hnz.1, hnz.2, hny.1, hny.2, hnx.1, hnx.2, hz.1, hz.2,
+        hy.1, hy.2, hx.1, hx.2, hg.1, hg.2.1, hg.2.2, h⟩
+    · simp at h
+  · rintro ⟨b, nz, ny, nx, z, y, x, hb0, hb1, hnz0, hnz1, hny0, hny1, hnx0, hnx1, hz0, hz1, hy0, hy1,
+      hx0, hx1, hgx, hgy, hgz, rfl⟩
+    refine ⟨b, ⟨hb0, hb1⟩, nz, ⟨hnz0, hnz1⟩, ny, ⟨hny0, hny1⟩, nx, ⟨hnx0, hnx1⟩, z, ⟨hz0, hz1⟩,
+      y, ⟨hy0, hy1⟩, x, ⟨hx0, hx1⟩, ?_⟩
+    simp [hgx, hgy, hgz]
+
+/-- `_blocks_to_array3` is the transpose of `_array_to_blocks3`. -/
+theorem b2a3_mem (osh ish : Int → Int) (batch Bx By Bz Sx Sy Sz Nx Ny Nz : Int)
+    (hSx : 0 < Sx) (hSy : 0 < Sy) (hSz : 0 < Sz) (u : Upd Rat) :
+    u ∈ Gen.b2a3 osh ish batch Bx By Bz Sx Sy Sz Nx Ny Nz ↔
+      ∃ b nz ny nx z y x, 0 ≤ b ∧ b < batch ∧ 0 ≤ nz ∧ nz < Nz ∧ 0 ≤ ny ∧ ny < Ny ∧ 0 ≤ nx ∧ nx < Nx ∧
+        0 ≤ z ∧ z < Bz ∧ 0 ≤ y ∧ y < By ∧ 0 ≤ x ∧ x < Bx ∧
+        nx * Sx + x < osh (-1) ∧ ny * Sy + y < osh (-2) ∧ nz * Sz + z < osh (-3) ∧
+        u = ([b, nz * Sz + z, ny * Sy + y, nx * Sx + x], [b, nz, ny, nx, z, y, x], 1) := by
+  unfold Gen.b2a3
+  simp only [List.mem_flatMap, mem_pyRange0']
+  constructor
+  · rintro ⟨b, hb, iz, hiz, iy, hiy, ix, hix, z, hz, y, hy, x, hx, h⟩
+    split_ifs at h with hg
+    · obtain ⟨gx0, gx1, gy0, gy1, gz0, gz1⟩ := hg
+      obtain ⟨z0, z2, z4, z5, z6⟩ := (scatter_iff Sz Bz Nz iz z hSz).mp ⟨hz, gz0, gz1⟩
+      obtain ⟨y0, y2, y4, y5, y6⟩ := (scatter_iff Sy By Ny iy y hSy).mp ⟨hy, gy0, gy1⟩
+      obtain ⟨x0, x2, x4, x5, x6⟩ := (scatter_iff Sx Bx Nx ix x hSx).mp ⟨hx, gx0, gx1⟩
+      simp at h
+      refine ⟨b, pyDiv (iz - z) Sz, pyDiv (iy - y) Sy, pyDiv (ix - x) Sx, z, y, x, hb.1, hb.2,
+        z4, z5, y4, y5, x4, x5, z0, z2, y0, y2, x0, x2, by omega, by omega, by omega, ?_⟩
+      rw [h, ← z6, ← y6, ← x6]
+    · simp at h
+  · rintro ⟨b, nz, ny, nx, z, y, x, hb0, hb1, hnz0, hnz1, hny0, hny1, hnx0, hnx1, hz0, hz1, hy0, hy1,
+      hx0, hx1, hgx, hgy, hgz, rfl⟩
+    have hqz := pyDiv_mul_add_sub nz Sz z hSz
+    have hqy := pyDiv_mul_add_sub ny Sy y hSy
+    have hqx := pyDiv_mul_add_sub nx Sx x hSx
+    have hz := (scatter_iff Sz Bz Nz (nz * Sz + z) z hSz).mpr
+      ⟨hz0, hz1, by rw [hqz]; exact hnz0, by rw [hqz]; exact hnz1, by rw [hqz]⟩
+    have hy := (scatter_iff Sy By Ny (ny * Sy + y) y hSy).mpr
+      ⟨hy0, hy1, by rw [hqy]; exact hny0, by rw [hqy]; exact hny1, by rw [hqy]⟩
+    have hx := (scatter_iff Sx Bx Nx (nx * Sx + x) x hSx).mpr
+      ⟨hx0, hx1, by rw [hqx]; exact hnx0, by rw [hqx]; exact hnx1, by rw [hqx]⟩
+    refine ⟨b, ⟨hb0, hb1⟩, nz * Sz + z, ⟨by positivity, hgz⟩, ny * Sy + y, ⟨by positivity, hgy⟩,
+      nx * Sx + x, ⟨by positivity, hgx⟩, z, hz.1, y, hy.1, x, hx.1, ?_⟩
+    rw [if_pos ⟨by rw [hqx]; exact hnx0, by rw [hqx]; exact hnx1, by rw [hqy]; exact hny0,
+      by rw [hqy]; exact hny1, by rw [hqz]; exact hnz0, by rw [hqz]; exact hnz1⟩]
+    have hqz' : pyDiv (nz * Sz) Sz = nz := by
+      rw [pyDiv_of_pos _ hSz]; exact Int.mul_ediv_cancel _ (ne_of_gt hSz)
+    have hqy' : pyDiv (ny * Sy) Sy = ny := by
+      rw [pyDiv_of_pos _ hSy]; exact Int.mul_ediv_cancel _ (ne_of_gt hSy)
+    have hqx' : pyDiv (nx * Sx) Sx = nx := by
+      rw [pyDiv_of_pos _ hSx]; exact Int.mul_ediv_cancel _ (ne_of_gt hSx)
+    simp [hqz', hqy', hqx']
+
 end SigpyVerif.C09
